@@ -331,6 +331,11 @@ func (nfc *NfcSession) ReadFile(fileId uint16) (fileData []byte, err error) {
 			return nil, fmt.Errorf("[ReadFile] ParseTagAndLength error: %w", err)
 		}
 
+		// file size cannot be determined if the parent tag uses indefinite-length encoding
+		if tmpTlvLength < 0 {
+			return nil, fmt.Errorf("[ReadFile] indefinite-length encoding is not supported for the file's parent tag")
+		}
+
 		// abort if file length (TLV) exceeds configured maximum
 		if tmpTlvLength > nfc.readFileMaxTlvLength {
 			return nil, fmt.Errorf("[ReadFile] TLV length exceeds permitted maximum (len:%1d, max:%1d)", tmpTlvLength, nfc.readFileMaxTlvLength)
